@@ -394,6 +394,9 @@ def combinator_summaries(P):
     P[r'Result::err'] = lambda se, env, pc, v: one(env, v if isinstance(v, Opaque) else (Enum('Some', (v.fields[0],)) if v.tag == 'Err' else Enum('None')))
     P[r'Option::ok_or'] = lambda se, env, pc, v, e: one(env, Enum('Ok', (v.fields[0],)) if v.tag == 'Some' else Enum('Err', (e,)))
     P[r'Option::filter'] = _filter
+    P[r'<.* as Iterator>::any'] = _quantifier(True, True)
+    P[r'<.* as Iterator>::all'] = _quantifier(False, False)
+    P[r'(?:Vec|HashSet)::retain'] = _retain
 
 
 @cps
@@ -407,6 +410,60 @@ def _filter(se, env, pc, vals, cont):
             return cont(v if (r is True or is_true(r)) else Enum('None'), e, p)
         se.under(r, lambda: cont(v, e, p + [r])); se.under(Not(r), lambda: cont(Enum('None'), e, p + [Not(r)]))
     apply_closure(se, env, pc, vals[1], [Ref(cell)], k)
+
+
+def _fork_bool(se, r, on_true, on_false):
+    """Continue on a (possibly symbolic) boolean result: both ways if it depends on the model."""
+    if isinstance(r, bool): return on_true([]) if r else on_false([])
+    if isinstance(r, Opaque): on_true([]); return on_false([])
+    if is_true(simplify(r)): return on_true([])
+    if is_false(simplify(r)): return on_false([])
+    se.under(r, lambda: on_true([r])); se.under(Not(r), lambda: on_false([Not(r)]))
+
+
+def _quantifier(stop_on, result_when_stopped):
+    """Iterator::any (stop on true -> true) / Iterator::all (stop on false -> false) with a closure, over a list-modelled iterator."""
+    @cps
+    def f(se, env, pc, vals, cont):
+        itr, clo = vals[0], vals[1]
+        it0 = se.deref(env, itr) if isinstance(itr, Ref) else itr
+        def loop(it, env, pc):
+            def got(v, it2, env2, pc2):
+                if v is None:
+                    e = dict(env2)
+                    if isinstance(itr, Ref): se.store(e, itr, it2)
+                    return cont(BoolVal(not result_when_stopped), e, pc2)
+                def after(r, e3, p3):
+                    def stop(extra):
+                        e = dict(e3)
+                        if isinstance(itr, Ref): se.store(e, itr, it2)
+                        cont(BoolVal(result_when_stopped), e, p3 + extra)
+                    def go_on(extra): loop(it2, e3, p3 + extra)
+                    if stop_on: _fork_bool(se, r, stop, go_on)
+                    else: _fork_bool(se, r, go_on, stop)
+                apply_closure(se, env2, pc2, clo, [v[1]], after)
+            it_pull(se, env, pc, it, got)
+        loop(it0, env, pc)
+    return f
+
+
+@cps
+def _retain(se, env, pc, vals, cont):
+    """Vec::retain / HashSet::retain with a predicate closure over a list- or set-modelled collection."""
+    coll, clo = vals[0], vals[1]
+    v = se.deref(env, coll)
+    is_set = isinstance(v, dict) and 'set' in v
+    items = list(v['set']) if is_set else list(the_list(se, env, coll))
+    b = base_ref(se, env, coll)
+    def loop(i, kept, env, pc):
+        if i == len(items):
+            e = dict(env); se.store(e, coll, {'set': kept} if is_set else kept); return cont((), e, pc)
+        se.ncell = getattr(se, 'ncell', 0) + 1
+        cell = '$ret%d' % se.ncell; e = dict(env); e[cell] = items[i]
+        def after(r, e2, p2):
+            _fork_bool(se, r, lambda extra: loop(i + 1, kept + [items[i]], e2, p2 + extra), lambda extra: loop(i + 1, kept, e2, p2 + extra))
+        apply_closure(se, e, pc, clo, [Ref(cell)], after)
+    loop(0, [], env, pc)
 
 
 def _sort_by_key_late(se, env, pc, vals, cont): return sort_by_key(se, env, pc, vals, cont)
